@@ -1054,11 +1054,13 @@ def _object_valid(ty: int, data: bytes) -> bool:
 
 def _model_ingest(ctx, kind, path, pre, muts, tbls):
     """model answers `status names=...` for each mutant, with the two-pass instantiation of `valid`"""
-    store = ",".join(f"{ty}:{hx(d)}" for ty, d in pre) or "-"
+    # third field: zlib.compress at the level dulwich's stores use (-1): the model's `deflate` parameter
+    store = ",".join(f"{ty}:{hx(d)}:{hx(zlib.compress(d, -1))}" for ty, d in pre) or "-"
     mpath = "thin" if path.startswith("thin") else "addpack"
     if kind == "disk":
-        # second table: zlib on the file `extend_pack` produces (new trailer written over the last 20 bytes)
-        tbls = [t + " |" + (ztbl_args(zlib_table(m[:-20] + sha1(m[:-20]))) if len(m) >= 32 else "") for m, t in zip(muts, tbls)]
+        # round 1: the file the model says `_complete_pack` installs; round 2 gets zlib's behaviour on it as a second table
+        finals = ctx.driver.batch([f"c04.final {mpath} {hx(m)} {store}{t}" for m, t in zip(muts, tbls)])
+        tbls = [t + " |" + (ztbl_args(zlib_table(unhx(f[6:]))) if f.startswith("final ") else "") for f, t in zip(finals, tbls)]
     lines = [f"c04.ingest {kind} {mpath} {hx(m)} {store} -{t}" for m, t in zip(muts, tbls)]
     outs = ctx.driver.batch(lines)
     redo = []
@@ -1813,7 +1815,7 @@ def _git_index_files(ctx):
     import subprocess
     out = []
     env = core.clean_env()
-    base = ctx.scratch / "gitidx"
+    base = ctx.scratch / f"gitidx{len(list(ctx.scratch.iterdir()))}"
     for tag, cmds in (
         ("v2", [["git", "add", "."]]),
         ("v2-tree-ext", [["git", "add", "."], ["git", "write-tree"]]),
@@ -2071,22 +2073,38 @@ def run(ctx: core.Ctx):
     packs = valid_packs(rng)
     w = core.Worker("py", mem_mb=2048)
     wd = core.Worker("default", mem_mb=2048)
+    import time
+    walls = ctx.extra_cov.setdefault("stream_wall_s", {})
+
+    class timed:
+        def __init__(self, name):
+            self.name = name
+
+        def __enter__(self):
+            self.t = time.time()
+
+        def __exit__(self, *a):
+            walls[self.name] = round(walls.get(self.name, 0) + time.time() - self.t, 1)
     try:
         _sha1_selftest(ctx)
-        _run_corpus(ctx, w)
+        with timed("corpus"):
+            _run_corpus(ctx, w)
         # 1. framing: every mutant of every pack through both readers and the model
         stride = 1 if ctx.thorough else 2
         n_ing = ctx.budget(90)
         for p in packs:
             allm = list(mutants_of(p.data, p.struct_pos, rng, ctx.thorough, flip_stride=stride if len(p.data) > 200 else 1))
-            _stream_parse(ctx, w, p.name, [("valid", p.data)] + allm)
+            with timed("parse"):
+                _stream_parse(ctx, w, p.name, [("valid", p.data)] + allm)
             # 2. ingestion paths x store kinds on the valid pack and a selection of its mutants
             ids = [obj_name(ty, d).hex() for ty, d in p.objects]
             sel = [("valid", p.data)] + _select(rng, allm, n_ing)
-            _stream_ingest(ctx, w, p.name, p.ext, sel, ids)
+            with timed("ingest"):
+                _stream_ingest(ctx, w, p.name, p.ext, sel, ids)
             extra = [("valid", p.data)] + rng.sample(allm, min(len(allm), max(4, n_ing // 8)))
-            _stream_ingest(ctx, w, p.name, p.ext, extra, ids, combos=[("disk", "thin-recv"), ("disk", "addpack-abort")], stream="ingest.aux")
-            _stream_ingest(ctx, wd, p.name + " [rust]", p.ext, extra, ids, combos=[("disk", "thin"), ("mem", "addpack")], stream="ingest.rust")
+            with timed("ingest.aux+rust"):
+                _stream_ingest(ctx, w, p.name, p.ext, extra, ids, combos=[("disk", "thin-recv"), ("disk", "addpack-abort")], stream="ingest.aux")
+                _stream_ingest(ctx, wd, p.name + " [rust]", p.ext, extra, ids, combos=[("disk", "thin"), ("mem", "addpack")], stream="ingest.rust")
         if len(ctx.samples) < 3:
             p = packs[5]
             ctx.sample({"stream": "parse/ingest", "pack": p.name, "bytes": hx(p.data), "objects": [[ty, hx(d)[:40]] for ty, d in p.objects]})
@@ -2094,6 +2112,7 @@ def run(ctx: core.Ctx):
         bypre: dict = {}
         for tag, data, pre in attacks(rng):
             bypre.setdefault(tuple(pre), []).append((tag, data))
+        t_att = time.time()
         for pre, cases in bypre.items():
             _stream_parse(ctx, w, "attack", cases, stream="attack.parse")
             _stream_ingest(ctx, w, "attack", list(pre), cases, [], stream="attack.ingest")
@@ -2101,14 +2120,19 @@ def run(ctx: core.Ctx):
                            stream="attack.ingest.rust")
             _stream_ingest(ctx, w, "attack", list(pre), cases, [], combos=[("disk", "thin-recv"), ("disk", "addpack-abort")], stream="attack.ingest.aux")
         ctx.sample({"stream": "attack", "tags": [t for t, _, _ in attacks(rng)][:80]})
+        walls["attacks"] = round(time.time() - t_att, 1)
         # 4. random access with attacker-controlled indexes
-        _stream_random_access(ctx, w, packs)
+        with timed("random-access"):
+            _stream_random_access(ctx, w, packs)
         # 5. system-call programs, crash snapshots, injected faults
-        _stream_fs(ctx)
+        with timed("fs"):
+            _stream_fs(ctx)
         # 6. pack indexes, loose objects, index files, packed-refs
-        _stream_files(ctx, w, packs)
+        with timed("files"):
+            _stream_files(ctx, w, packs)
         # 7. decompression bombs
-        _stream_bombs(ctx)
+        with timed("bombs"):
+            _stream_bombs(ctx)
     finally:
         w.close()
         wd.close()
